@@ -15,6 +15,8 @@ LEVEL = "model_checking"
 
 def judge(d):
     f = []
+    if d.get("timeout"):
+        raise vlib.ToolError("sub-life scenario could not be set up: %s" % d["timeout"])
     if d["mode"] == "abrupt":
         if d.get("state_at_stop") != "completed":
             if d.get("restored"):
@@ -31,6 +33,8 @@ def judge(d):
         f.append("a cleanly stopped subscription was not restored (id lost)")
         return f
     snap = d.get("attach_after_restart") or {}
+    if snap.get("timeout"):
+        raise vlib.ToolError("the snapshot of the restored subscription did not arrive within 90 s (machine overloaded?)")
     if "error" in snap:
         f.append("attaching to the restored subscription failed: %s" % snap["error"])
         return f
